@@ -15,6 +15,7 @@
 //               default-constructed and differently formatted images, raw-data ctors, load,
 //               set_channel_width/set_has_alpha) and saved again: same bytes as the direct save for the
 //               pixel-preserving routes, exact save->load round trip of the reported state for all.
+//   ladder cases (kind 2): encoded-size ladder for the PNG writer, see run_ladder_case().
 // vf::poison_errno() runs before every call into phosg (crumb_* does it, plus load_with/do_save/alt_save).
 // One process handles one (family file, shard); a sanitizer abort therefore only loses the rest of
 // that family's shard (the orchestrator restarts it after the crashed case).
@@ -126,6 +127,7 @@ enum : uint8_t {
   R_ROUTE = 9,    // object-history route: how the image came to hold its pixels + the state it reports
   R_RSAVE = 10,   // save of a route's image (payload omitted when identical to the direct image's save)
   R_RLOAD = 11,   // load of a route's saved bytes
+  R_LADDER = 12,  // one probe of the encoded-size ladder: pixel recipe (L) + the PNG the real writer produced
 };
 
 // ------------------------------------------------------------------------------------------------
@@ -689,6 +691,110 @@ static void run_save_case(const Case& k, size_t maxprefix) {
   }
 }
 
+// ---- encoded-size ladder ---------------------------------------------------------------------------
+// The size of a PNG's IDAT payload only emerges after deflate; no choice of dimensions steers it.  A ladder
+// case carries a random byte array `base` (the full raster), a fill byte and a recipe `mode`; the raster
+// with parameter L holds L bytes of `base` (prefix, suffix, or alternating with the fill byte) and the fill byte elsewhere, so the deflated size grows
+// with L by about one byte per step.  For every target size T the parameter is steered by MEASURING what the
+// real writer produced (sum of the IDAT chunk lengths in the saved file; for a second list of targets the total
+// file length): bisection to the first L that
+// reaches T-1, then every L of a dense window around it.  Every PNG produced on the way (bisection probes
+// included) is dumped; the Python side rebuilds the raster from (base, mode, fill, L) on its own, decodes
+// the file with its own decoder and notes which boundary sizes were hit.  The measurement below only steers.
+static void ladder_pixels(string& out, const string& base, uint8_t mode, uint8_t fill, size_t L) {
+  size_t n = base.size();
+  out.assign(n, (char)fill);
+  if (mode == 0) {  // random prefix, constant rest
+    memcpy(&out[0], base.data(), L);
+  } else if (mode == 1) {  // constant first, random suffix
+    memcpy(&out[n - L], base.data() + (n - L), L);
+  } else {  // random and constant bytes alternating over the first 2L bytes, constant rest (L <= ceil(n/2))
+    for (size_t i = 0; i < n && i < 2 * L; i += 2) out[i] = base[i];
+  }
+}
+
+// sum of the IDAT chunk lengths; -1 if the chunk framing cannot even be walked (steering only, never a verdict)
+static int64_t measure_idat(const string& b) {
+  size_t pos = 8;
+  int64_t total = 0;
+  while (pos + 12 <= b.size()) {
+    uint32_t len = ((uint32_t)(uint8_t)b[pos] << 24) | ((uint32_t)(uint8_t)b[pos + 1] << 16) |
+        ((uint32_t)(uint8_t)b[pos + 2] << 8) | (uint32_t)(uint8_t)b[pos + 3];
+    if (len > b.size() || pos + 12 + len > b.size()) return -1;
+    if (!memcmp(&b[pos + 4], "IDAT", 4)) total += len;
+    if (!memcmp(&b[pos + 4], "IEND", 4)) return total;
+    pos += 12 + (size_t)len;
+  }
+  return -1;
+}
+
+static void run_ladder_case(const Case& k, Rd& r) {
+  const Img& w = k.want;
+  uint8_t mode = r.u(1), fill = r.u(1);
+  size_t window = r.u(2);
+  uint32_t nt = r.u(4);
+  std::vector<uint32_t> targets;
+  for (uint32_t i = 0; i < nt; i++) targets.push_back(r.u(4));
+  if (w.cw != 8) harness_error("ladder case: PNG needs 8-bit channels");
+  const string& base = w.data;
+  size_t n = base.size();
+  size_t lmax = mode == 2 ? (n + 1) / 2 : n;
+  // L -> (measured IDAT payload, file length); a target with bit 31 set steers the total file length instead
+  std::map<size_t, std::pair<int64_t, int64_t>> seen;
+  string px;
+  auto probe = [&](size_t L, uint32_t target, uint8_t phase) -> int64_t {
+    bool by_file = target & 0x80000000u;
+    auto it = seen.find(L);
+    if (it != seen.end()) return by_file ? it->second.second : it->second.first;
+    ladder_pixels(px, base, mode, fill, L);
+    C->crumb("ladder case %u %s: save(png) %ux%u alpha=%u mode=%u fill=%u L=%zu (target %u, phase %u)", k.id, k.name.c_str(),
+             w.w, w.h, w.alpha, mode, fill, L, target, phase);
+    C->evaluations++;
+    Image im(w.w, w.h, w.alpha, 8);
+    if (im.get_data_size() != n) harness_error("ladder case: pixel array size does not match Image::get_data_size()");
+    memcpy(im.get_data(), px.data(), n);
+    Saved s = do_save(im, Image::Format::PNG);
+    uint8_t via_stream = alt_save(s, [&]() { return save_via_stream(im, Image::Format::PNG); });
+    int64_t m = s.ok ? measure_idat(s.bytes) : -1;
+    Rec rec(R_LADDER, k.id);
+    rec.u(L, 4).u(target, 4).u(phase, 1).u(s.ok ? 0 : 1, 1);
+    if (s.ok) rec.blob(s.bytes);
+    else rec.blob(s.et).blob(s.ew.substr(0, 300));
+    rec.u(via_stream, 1).u(m < 0 ? 0xFFFFFFFFu : (uint32_t)m, 4);
+    emit(rec);
+    int64_t flen = s.ok ? (int64_t)s.bytes.size() : -1;
+    seen[L] = {m, flen};
+    return by_file ? flen : m;
+  };
+  int64_t top = probe(lmax, 0, 0);
+  probe(0, 0, 0);
+  for (uint32_t target : targets) {
+    int64_t T = target & 0x7FFFFFFFu;
+    top = probe(lmax, target, 0);
+    if (top < T + 1) {
+      C->cls("ladder:target-unreachable");
+      continue;
+    }
+    // smallest L whose file reaches T-1 (sizes are monotone in L up to a few bytes of noise)
+    size_t lo = 0, hi = lmax;
+    if (probe(0, target, 1) >= T - 1) hi = 0;
+    while (hi - lo > 1) {
+      size_t mid = lo + (hi - lo) / 2;
+      if (probe(mid, target, 1) >= T - 1) hi = mid;
+      else lo = mid;
+    }
+    size_t from = hi > window ? hi - window : 0;
+    bool got[3] = {false, false, false};
+    for (size_t L = from; L <= lmax; L++) {
+      int64_t m = probe(L, target, 2);
+      for (int d = 0; d < 3; d++)
+        if (m == T - 1 + d) got[d] = true;
+      if (L >= hi + window && ((got[0] && got[1] && got[2]) || L >= hi + 4 * window)) break;
+    }
+    C->cls(fmt("ladder:%s:mode%u:%s", (target >> 31) ? "file" : "idat", mode, (got[0] && got[1] && got[2]) ? "all-three" : (got[1] ? "exact" : "near")));
+  }
+}
+
 int main(int argc, char** argv) {
   vf::Ctx& c = vf::init(argc, argv);
   C = &c;
@@ -755,6 +861,8 @@ int main(int argc, char** argv) {
     if (k.kind == 0) {
       bool pre = (k.flags & F_PREFIX) && k.file.size() <= maxprefix;
       run_channels(k.id, SLOT_INPUT, k.file, k.flags, pre, k.want, k.fam.c_str());
+    } else if (k.kind == 2) {
+      run_ladder_case(k, r);
     } else {
       run_save_case(k, maxprefix);
     }
